@@ -114,6 +114,11 @@ class _GraphIO(collections.UserList["_core.Value"]):
             item = tuple(item)
             for value in item:
                 self._check_value(value)
+            if i.step not in (None, 1) and len(item) != len(self.data[i]):
+                # list.__setitem__ would reject this only after the ownership was moved
+                raise ValueError(
+                    f"attempt to assign sequence of size {len(item)} to extended slice of size {len(self.data[i])}"
+                )
             for value in self.data[i]:
                 self._maybe_unset_graph(value)
             for value in item:
